@@ -1013,3 +1013,112 @@ def do_supplied_table_case(req):
 
 
 HANDLERS.update({'supplied_table_case': do_supplied_table_case})
+
+
+# ------------------------------------------------------------------------------ C14 stand-ins
+def _ansi_strip(s):
+    import re
+    return re.sub(r'\x1b\[[0-9;]*m', '', s)
+
+
+def do_color_search(req):
+    import random
+    from pykdebugparser.pykdebugparser import PyKdebugParser
+    rnd = random.Random(req.get('seed', 0))
+    texts = ['read(3, 0x1000, 16), count: 16', 'open("/tmp/a b", O_RDONLY | O_CREAT), errno: ENOENT(2)', 'lookup("/x/y"), vnode id: 7',
+             'New thread 5 of parent: 9', 'ioctl(3, 0x80047410 /* _IOC(IOC_IN, \'t\', 16, 4) */, 0x0)', 'a  b\tc', '  leading', 'x' * 200,
+             'MACH_SCHED, to: 5, reason: AST_PREEMPT | AST_URGENT', '"quoted \\" text"', "it's", '/* comment */ 0x10', '']
+    tried = 0
+
+    class T:
+        def __init__(self, text, ev):
+            self.text, self.ktraces = text, [ev]
+
+        def __str__(self):
+            return self.text
+    while tried < req.get('budget', 50):
+        text = rnd.choice(texts) if tried >= len(texts) else texts[tried]
+        tried += 1
+        p = PyKdebugParser()
+        p.show_timestamp = p.show_process = False
+        t = T(text, _mk_kevent(0x40c0000, 5))
+        p.color = False
+        plain = p._format_trace(t)
+        p.color = True
+        col = _ansi_strip(p._format_trace(t))
+        if col != plain.strip() and col != plain:
+            return {'tried': tried, 'found': {'violates': True, 'request': {'kind': 'color_search', 'budget': tried, 'seed': req.get('seed', 0)},
+                                              'what': 'coloured line %r differs from the plain line %r after removing the colour codes' % (col, plain)}}
+    return {'tried': tried, 'found': None}
+
+
+def do_format_case(req):
+    """composition of columns and freshness of the process column"""
+    from pykdebugparser.pykdebugparser import PyKdebugParser
+    names = ['show_timestamp', 'show_name', 'show_func_qual', 'show_tid', 'show_process', 'show_args']
+    p = PyKdebugParser()
+    p.color = False
+    p.threads_pids.update({5: 42})
+    p.pids_names.update({42: 'proc'})
+    codes = _cached_codes()
+    ev = _mk_kevent(0x40c0000, 5, 1, (1, 2, 3, 4), ts=77)
+
+    class T:
+        ktraces = [ev]
+
+        def __str__(self):
+            return 'body'
+    from pykdebugparser.callstacks_parser import Callstack, Frame
+    cs = Callstack(77, 5, [Frame(0x10, None, None), Frame(0x20, 'uuid', 4)])
+    setting = req['setting']
+
+    def render(which, sw):
+        for n, v in zip(names, sw):
+            setattr(p, n, v)
+        if which == 'kevent':
+            return p._format_kevent(ev, codes)
+        if which == 'trace':
+            return p._format_trace(T())
+        return p._format_callstack(cs)
+    which = req['which']
+    idx = {'kevent': [0, 1, 2, 3, 4, 5], 'trace': [0, 3, 4], 'callstack': [0, 3, 4]}[which]
+    off = [False] * 6
+    body = render(which, off)
+    full = [setting[i] if i in idx else False for i in range(6)]
+    got = render(which, full)
+    cols = ''
+    for i in idx:
+        if setting[i]:
+            one = list(off)
+            one[i] = True
+            r = render(which, one)
+            cols += r[:len(r) - len(body)] if body else r
+    want = cols + body
+    viol = got != want
+    what = '%s with switches %s renders %r, the enabled columns concatenate to %r' % (which, dict(zip(names, full)), got, want) if viol else ''
+    if not viol and req.get('freshness'):
+        for n, v in zip(names, [False, False, False, False, True, False]):
+            setattr(p, n, v)
+        a = p._format_kevent(ev, codes)
+        p.threads_pids[5] = 43
+        p.pids_names[43] = 'other'
+        b = p._format_kevent(ev, codes)
+        if 'other(43)' not in b:
+            viol, what = True, 'after the tables declare pid 43 for thread 5 the process column still reads %r (before: %r)' % (b, a)
+    return {'violates': viol, 'what': what}
+
+
+def do_format_search(req):
+    import itertools
+    tried = 0
+    for which in ('kevent', 'trace', 'callstack'):
+        for setting in itertools.product([False, True], repeat=6):
+            tried += 1
+            r = do_format_case({'which': which, 'setting': list(setting), 'freshness': True})
+            if r['violates']:
+                r['request'] = {'kind': 'format_case', 'which': which, 'setting': list(setting), 'freshness': True}
+                return {'tried': tried, 'found': r}
+    return {'tried': tried, 'found': None}
+
+
+HANDLERS.update({'color_search': do_color_search, 'format_case': do_format_case, 'format_search': do_format_search})
